@@ -9,6 +9,7 @@ code does around it is the executable function `sampleAlternatives`.
 import Model.Sampling
 import Proofs.Sampling
 import Proofs.SamplingReal
+import Proofs.SamplingNested
 
 open Sampling
 
@@ -246,6 +247,75 @@ theorem full_sample_equiv_code (altIds : List Int) (strata : List Stratum) (chos
     ((hcov.mem chosen).mp hin) hp
   exact ⟨rows, h1, full_sample_ll strata altIds chosen rows U hv hcov hfull h2⟩
 
+/-! ### the nested logit generated on the sample (`get_nested_logit`) -/
+
+/-- **Every nest reads its own MEV sum.**  The dictionary of MEV sums is keyed by the tuple of
+the alternatives of the nest; for valid nests (none empty, pairwise disjoint) the entry read back
+for a nest is the sum computed for that very nest, whatever the labels and the nest parameters of
+the other nests (any number type, any membership test, any second sample). -/
+theorem nest_sum_lookup {α ι} [NumOps α] (mem : List Int → ι → Bool) (mev : List (ι × α × α))
+    (nests : List (Nest α)) (hv : ValidNests nests) :
+    ∀ n ∈ nests, dictGet (mevSumsDict mem mev nests) n.alts = some (nestMevSum mem mev n) :=
+  dictGet_mevSums mem mev nests hv.nonempty hv.disjoint
+
+/-- the engine's `BelongsTo` (comparison of reals) on the number carried by an id column is
+membership of the id in the list -/
+theorem belongs_is_membership (alts : List Int) (a : Int) :
+    belongs alts (Num.int a : ℝ) = alts.contains a := by
+  unfold belongs
+  rw [Bool.eq_iff_iff]
+  simp only [List.any_eq_true, NumR.eq_real, NumR.int_real, List.contains_iff_mem]
+  constructor
+  · rintro ⟨b, hb, h⟩
+    have : b = a := by exact_mod_cast h
+    exact this ▸ hb
+  · intro h; exact ⟨a, h, rfl⟩
+
+/-- **NESTED FULL-SAMPLE EQUIVALENCE.**  When every stratum of the main partition and of the
+second (MEV) partition is sampled completely, for all results that follow the two protocols (hence
+for every outcome of the random draws), all valid nests lying in the second partition, all nest
+parameters and utilities: the log likelihood of the nested logit generated on the sample equals
+the log likelihood of the nested logit (`lognested`) on the full choice set. -/
+theorem nested_full_sample_equiv (strata mstrata : List Stratum) (alts : List Int) (chosen : Int)
+    (rows mev : List (Int × ℝ)) (U : Int → ℝ) (nests : List (Nest ℝ))
+    (hv : ValidStrata strata) (hcov : Covers strata alts)
+    (hfull : ∀ s ∈ strata, s.k = (s.subset.length : Int))
+    (hp : Protocol strata chosen rows)
+    (hmv : ValidStrata mstrata) (hmne : ∀ s ∈ mstrata, s.subset ≠ [])
+    (hmfull : ∀ s ∈ mstrata, s.k = (s.subset.length : Int))
+    (hmp : MevProtocol mstrata mev)
+    (hn : ValidNests nests)
+    (hsub : ∀ n ∈ nests, ∀ a ∈ n.alts, ∃ s ∈ mstrata, a ∈ s.subset) :
+    nestedSampledLLAbs U nests rows mev = some (fullNestedLL U nests alts chosen) := by
+  obtain ⟨h1, h2, h3⟩ := mev_complete mstrata mev hmv hmne hmfull hmp
+  refine nested_full_sample_ll strata alts chosen rows mev U nests hv hcov hfull hp hn h1 h2 ?_
+  intro n hn' a ha
+  obtain ⟨s, hs, h⟩ := hsub n hn' a ha
+  exact h3 s hs a h
+
+/-- end to end: with complete sampling of both samples, whatever the random draws returned, the
+code's own two samples give the nested logit of the full choice set -/
+theorem nested_full_sample_equiv_code (altIds : List Int) (strata mstrata : List Stratum)
+    (chosen : Int) (picks mpicks : List (List Int)) (U : Int → ℝ) (nests : List (Nest ℝ))
+    (hv : ValidStrata strata) (hcov : Covers strata altIds)
+    (hfull : ∀ s ∈ strata, s.k = (s.subset.length : Int))
+    (hin : chosen ∈ altIds) (hp : picksOK chosen strata picks = true)
+    (hmv : ValidStrata mstrata) (hmne : ∀ s ∈ mstrata, s.subset ≠ [])
+    (hmfull : ∀ s ∈ mstrata, s.k = (s.subset.length : Int))
+    (hmp : mevPicksOK mstrata mpicks = true)
+    (hn : ValidNests nests)
+    (hsub : ∀ n ∈ nests, ∀ a ∈ n.alts, ∃ s ∈ mstrata, a ∈ s.subset) :
+    ∃ rows : List (Int × ℝ),
+      sampleAlternatives altIds strata chosen picks = .ok (rows.map fun r => (r.1, some r.2)) ∧
+      nestedSampledLLAbs U nests rows (sampleMev mstrata mpicks)
+        = some (fullNestedLL U nests altIds chosen) := by
+  have hocc : altIds.count chosen = 1 := List.count_eq_one_of_mem hcov.nodup hin
+  obtain ⟨rows, h1, h2⟩ := sampleAlternatives_protocol (α := ℝ) altIds strata chosen picks hv hocc
+    ((hcov.mem chosen).mp hin) hp
+  obtain ⟨m1, m2, m3⟩ := sampleMev_facts (α := ℝ) mstrata mpicks hmv.disjoint hmp
+  exact ⟨rows, h1, nested_full_sample_equiv strata mstrata altIds chosen rows _ U nests hv hcov hfull h2
+    hmv hmne hmfull ⟨m1, m2, m3⟩ hn hsub⟩
+
 /-! ### non-vacuity -/
 
 def exStrata : List Stratum := [⟨[4, 17, 2], 2⟩, ⟨[30, 9, 11], 3⟩]
@@ -273,5 +343,18 @@ example : picksOK 17 exFull [[2, 4], [11, 9, 30]] = true := by decide
 /-- the structural facts on a concrete outcome (integers as numbers) -/
 example : (flattenSample (α := Nat) "" ["id", "cost"] [[17, 30], [2, 5]] 0).map (·.1)
     = ["id_0", "cost_0", "id_1", "cost_1"] := by decide
+
+/-- nests and a complete second sample -/
+def exNests : List (Nest Int) := [⟨2, [17, 4]⟩, ⟨3, [11, 30, 9]⟩]
+example : ValidNests exNests := ⟨by decide, by decide, by decide⟩
+def exMevFull : List Stratum := [⟨[4, 9, 17], 3⟩, ⟨[30, 11, 2], 3⟩]
+example : ValidStrata exMevFull := ⟨by decide, by decide, by decide⟩
+example : mevPicksOK exMevFull [[9, 17, 4], [2, 30, 11]] = true := by decide
+example : ∀ a ∈ (exNests.map (·.alts)).flatten, ∃ s ∈ exMevFull, a ∈ s.subset := by decide
+/-- reading the dictionary: the key is the tuple of alternatives, the last assignment wins -/
+example : dictGet (α := Nat) [([17, 4], 5), ([11, 30, 9], 7)] [11, 30, 9] = some 7 ∧
+    dictGet (α := Nat) [([17, 4], 5), ([11, 30, 9], 7)] [17, 4] = some 5 ∧
+    dictGet (α := Nat) [([17, 4], 5), ([17, 4], 6)] [17, 4] = some 6 ∧
+    dictGet (α := Nat) [([17, 4], 5)] [4, 17] = none := by decide
 
 end C19
